@@ -284,7 +284,7 @@ func (s *search) run(maxDepth int, alphaAt func(level int) []uint8, deadline tim
 		s.levelTrans = append(s.levelTrans, 0)
 	}
 
-	const chunk = 4096
+	const chunk = 1024
 	// processChunk expands the nodes of part by every operation of alpha.
 	processChunk := func(part []*entry, alpha []uint8, next *[]*entry) (lt int64) {
 		// phase 1 (parallel): execute every enabled operation from every node
@@ -448,8 +448,7 @@ func main() {
 	run := core.Start("C16", "model_checking", "XSTATE")
 	if pf := os.Getenv("VERIF_C16_PROF"); pf != "" {
 		f, _ := os.Create(pf)
-		pprof.StartCPUProfile(f)
-		time.AfterFunc(40*time.Second, func() { pprof.StopCPUProfile(); f.Close(); os.Exit(3) })
+		pprof.StartCPUProfile(f) // development aid; stopped before Finish
 	}
 	initPool()
 	debug.SetGCPercent(run.Pick(200, 100))
@@ -536,7 +535,7 @@ func main() {
 		}
 	}
 
-	budget := time.Duration(run.Pick(55, 14*60)) * time.Second
+	budget := time.Duration(run.Pick(48, 12*60+30)) * time.Second
 	if v := os.Getenv("VERIF_C16_BUDGET"); v != "" {
 		if d, err := time.ParseDuration(v); err == nil {
 			budget = d
